@@ -380,4 +380,9 @@ MUTANTS = [
     M("benign-empty-test-rev", ["C08"], (FE, "if self.player_entries.iter().any(|entry| entry.is_empty()) {", "if self.player_entries.iter().rev().any(|entry| entry.is_empty()) {"), benign=True),
     M("mg-weight-one-rejected", ["C05"], (TK, 'Regex::new(r"^[AKQJT98765432]{2}(:(0(\\.[0-9]+)?|1(\\.0+)?))?$").unwrap();', 'Regex::new(r"^[AKQJT98765432]{2}(:(0(\\.[0-9]+)?|0(\\.0+)?))?$").unwrap();')),
     M("mg-weight-one-digit-fraction", ["C05"], (TK, 'Regex::new(r"^[AKQJT98765432]{2}[so](:(0(\\.[0-9]+)?|1(\\.0+)?))?$").unwrap();', 'Regex::new(r"^[AKQJT98765432]{2}[so](:(0(\\.[0-9])?|1(\\.0+)?))?$").unwrap();')),
+    M("c02-deck-board-take2", ["C02"], (FE, "                    .iter()\n                    .filter(|c| c.is_some())", "                    .iter()\n                    .take(2)\n                    .filter(|c| c.is_some())")),
+    M("c02-deck-rank-skip", ["C02"], (FE, "        for rank in RankRange::all() {\n            for suit in SuitRange::all() {\n                let card", "        for rank in RankRange::all().into_iter().skip(1) {\n            for suit in SuitRange::all() {\n                let card")),
+    M("c02-deck-any", ["C02"], (FE, "                    .all(|c| (*c).unwrap() != card)", "                    .any(|c| (*c).unwrap() != card)")),
+    M("c02-deck-other-card", ["C02"], (FE, "                    current_deck.push(card);", "                    current_deck.push(Card::new(rank, crate::card::Suit::Spade));")),
+    M("c02-board-sorted", ["C02"], (FE, "        let mut current_deck = Vec::with_capacity(52);", "        let mut sorted_board = evaluator.board.clone();\n        sorted_board[..3].sort_unstable();\n        let mut current_deck = Vec::with_capacity(52);"), (FE, "            current_board: evaluator.board.clone(),", "            current_board: sorted_board,")),
 ]
